@@ -5,6 +5,21 @@ V = os.path.dirname(os.path.dirname(os.path.abspath(__file__)))
 ALL = ['C%02d' % i for i in range(1, 20)]
 
 CHECKS = {
+ 'C12': dict(
+   technique='static call-order rule on the normalisation pipeline, forward must-analysis "write index tested since its last increment" for every in-place routine, call-graph reachability and sibling agreement of anomaly raise sites, bijection between configuration setters and decoder fields',
+   text='Decides for all paths: the path arm runs decode, then UTF-8 best-fit or validation, then dot-segment removal; in every in-place routine each write through data[w++] follows a fresh w < len test and the result length is the write index (never longer); every anomaly indicator of the statement has a raise site in the path pipeline and every NUL test raises its indicator (D10 repaired by fix 0d226e4); each decoder option has exactly one setter writing it from its parameter for the context and the defaults (D11 repaired by fix 8c4f013). Not decided: equality with a reference decoder, idempotence, absence of dot segments in the result.',
+   note='Values are not tracked.',
+   ref='§4.12'),
+ 'C13': dict(
+   technique='static dominance rules on the URI splitter (which component may be stored under which test), source-of-bytes rule, agreement of the two port-range predicates',
+   text='Decides for all paths: a scheme is stored only when the target does not start with a slash, authority components only after a scheme and the double-slash marker, every component is a bstr_dup_mem copy of bytes of the input buffer, both port predicates accept exactly 1..65535 of a base-10 parse and mark everything else invalid with port -1. Not decided: that the slices partition the target (values).',
+   note='Values are not tracked.',
+   ref='§4.13'),
+ 'C17': dict(
+   technique='static ring-buffer rules (wrap test after every cursor increment, size bookkeeping paired with element store/removal by path enumeration, growth re-linearisation, guarded index forms), overflow pre-check dominance in the integer parser, comparator/iteration rules for the table getters, one add-variant per table',
+   text='Decides the structural invariants the abstract-type behaviour rests on, for all paths: list cursors wrap, current_size moves exactly with element stores/removals, growth resets all four fields and copies head then tail adjacently, every elements[E] uses a guarded index form; the multiply-accumulate of the integer parser is dominated by the INT64_MAX pre-check, chunk length is capped at INT32_MAX, status valid iff 100..999; table getters fold case, scan pairs from 0 and return the first match, each table uses one key-ownership variant. Not decided: agreement with a reference model on values.',
+   note='Byte-string scan loops are covered by the guarded-read rules of C01.',
+   ref='§4.17'),
  'C11': dict(
    technique='static decision-table extraction: path enumeration over the T-E/C-L and Host arbitration regions, rows of the statement checked on every path with untested trigger atoms counted as possibly true; flag-namespace rule (tested flags have raise sites)',
    text='Decides for every path of the arbitration code: each ambiguity trigger named in the statement leads to the required indicator(s) and framing decision (request and response arms), no indicator is raised where no row applies, invalid-host indicators are raised under both the syntax and the validation result, a repeated header always carries REPEATED. Three recorded findings (D7 dead FOLDED flag, D8 repeated/folded C-L not examined next to an unsupported T-E). Not decided: robustness of the token/number parsers to spelling of header values.',
